@@ -634,15 +634,15 @@ theorem decStep_oneshot (I : Inner) (all : Bytes) (enc : Option Text) (force : B
   cases enc with
   | none =>
     simp only [Option.isNone_none, Bool.true_or, if_true, Bool.or_true, Option.getD_some, Bool.true_and]
-    by_cases hcss : (de == ofStr "css") = true
-    · have : (some de == some (ofStr "css")) = true := by simpa using hcss
+    by_cases hcss : (isCss de) = true
+    · have : ((some de).map isCss).getD false = true := by simpa using hcss
       simp only [hcss, if_true, this]
       rfl
-    · have h1 : (de == ofStr "css") = false := by
-        cases hb : (de == ofStr "css") with
+    · have h1 : (isCss de) = false := by
+        cases hb : (isCss de) with
         | false => rfl
         | true => exact absurd hb hcss
-      have h2 : (some de == some (ofStr "css")) = false := by simpa using h1
+      have h2 : ((some de).map isCss).getD false = false := by simpa using h1
       simp only [h1, h2, Bool.false_eq_true, if_false]
       exact run_oneshot I force de all
   | some e =>
@@ -654,15 +654,15 @@ theorem decStep_oneshot (I : Inner) (all : Bytes) (enc : Option Text) (force : B
     | false =>
       simp only [Option.isNone_some, Bool.not_false, Bool.or_true, if_true, Bool.true_and, Bool.and_true,
         Bool.or_false, Option.getD_some]
-      by_cases hcss : (de == ofStr "css") = true
-      · have : (some de == some (ofStr "css")) = true := by simpa using hcss
+      by_cases hcss : (isCss de) = true
+      · have : ((some de).map isCss).getD false = true := by simpa using hcss
         simp only [hcss, if_true, this]
         rfl
-      · have h1 : (de == ofStr "css") = false := by
-          cases hb : (de == ofStr "css") with
+      · have h1 : (isCss de) = false := by
+          cases hb : (isCss de) with
           | false => rfl
           | true => exact absurd hb hcss
-        have h2 : (some de == some (ofStr "css")) = false := by simpa using h1
+        have h2 : ((some de).map isCss).getD false = false := by simpa using h1
         simp only [h1, h2, Bool.false_eq_true, if_false]
         cases x with
         | true => exact run_oneshot I false de all
